@@ -9,7 +9,7 @@ import props as P
 HERE = os.path.dirname(os.path.abspath(__file__))
 
 TEXT = {
-    "C01": ("exploration", "bounded only (time.format_time could not be brought under contract: string joins over symbolic lists time out in every solver): the round-trip fixpoint is a run-time contract check of Dialect.parse/generate on an enumerated grammar x all dialects", "3 C01, 9.1"),
+    "C01": ("other", "the only tier-A part: nested prefix operators never glue into another token, whatever the operand generates to (Generator.neg_sql never starts with '--', bitwisenot_sql never with '~~'; proved over an uninterpreted operand text); time.format_time could not be brought under contract (string joins over symbolic lists time out in every solver); the round-trip fixpoint is a run-time contract check of Dialect.parse/generate on an enumerated grammar x all dialects", "3 C01, 9.1"),
     "C02": ("other", "the NULL-ordering clause proved for all dialect pairs (slice contracts on Parser._parse_ordered and Generator.ordered_sql against the eff_first spec); result equality itself is a bounded run-time contract check of sqlglot.transpile on the real engines (sqlite3 3.40, duckdb 1.5: enumerated query families x 3 NULL-bearing databases x the 4 dialect pairs, plus a MySQL target emulated on DuckDB for the CASE simulation)", "3 C02, 9.6"),
     "C04": ("other", "'cannot terminate its own quoting' decided for all strings by the RegTrans automaton back end for comments (sanitize_comment) and quoted identifiers (identifier_sql doubling, 34 dialects) on the real replace chains; escape_str / sanitize_comment / _replace_line_breaks proved to be functions of their arguments (purity frames); string-literal escaping and the decode-side lex-back round trip are a bounded exhaustive check (all strings up to a length over a per-dialect adversarial alphabet)", "3 C04, 9.1"),
     "C05": ("other", "cursor discipline, index restore, error funnel proved for all states by PyVC; index monotonicity of the retreating _parse_* methods (53 of 77 proved, the rest undecided at a recorded baseline) and progress of the parser's while loops (86 of 90 token loops) by projection-mode VCs; total behaviour on mutated and growing inputs is a bounded step-counted run-time check", "3 C05, 9.1"),
